@@ -357,6 +357,19 @@ impl Visitor for Recorder {
     }
 
     fn visit_type_ref(&mut self, t: &TypeRef) {
-        self.trace.push(json!(["type_ref", span(&t.span)]));
+        // what the presented reference designates (aliases are transparent): enough to tell *which* type was presented
+        let what = match &t.definition {
+            TypeRefDefinition::Unpatched(_) => "unpatched".to_owned(),
+            TypeRefDefinition::Patched(_) => match t.concrete_type() {
+                Types::Struct(s) => format!("struct:{}", s.parser_scoped_identifier()),
+                Types::Enum(s) => format!("enum:{}", s.parser_scoped_identifier()),
+                Types::CustomType(s) => format!("custom:{}", s.parser_scoped_identifier()),
+                Types::Primitive(p) => format!("primitive:{}", p.kind()),
+                Types::Sequence(_) => "sequence".to_owned(),
+                Types::Dictionary(_) => "dictionary".to_owned(),
+                Types::ResultType(_) => "result".to_owned(),
+            },
+        };
+        self.trace.push(json!(["type_ref", span(&t.span), what]));
     }
 }
